@@ -21,6 +21,18 @@ nested / element of an array / either dimension of a 2-d array, behind NAME, NAM
 construction (every byte carries data; value, extent and data mask from the reference parser harness/refimpl.py); every cut point and
 every read call x {premature end, exception}: a cut at or before the last data-carrying byte must raise, any returned value must be
 the one of the complete input, an injected exception must surface, no residue.
+
+Call forms x few-member aggregates (round 7, harness/v8_c08.py): structures and unions with ONE member (char, unsigned char, char[N],
+char[N][M], wchar, wchar[N], uint8 / int8 / BYTE[N], null-terminated char[] / wchar[] / uint8[], a number, enum, pointer, lone
+bit-field, nested / anonymous / array-of aggregate) and two- and three-member controls, under {<, >} x {packed, aligned} x
+{interpreted, compiled}, and the bare types themselves (cs.char, cs.char[N], cs.wchar[N], numbers, enums, LEB128, 2-d and
+null-terminated arrays); every cut of a valid input (confirmed by the reference parser, which also gives the last data-carrying byte)
+goes through EVERY way of handing bytes to a type: T(x), T.read(x), cs.read('T', x) with x = bytes, bytearray, memoryview, an instance
+of a bytes subclass, io.BytesIO, io.BufferedReader; T.reads(x) with the buffer kinds; T[1](x)[0]; W(x).inner for `struct W { T inner; }`.
+A cut at or before the last data byte must raise EOFError in every form; a cut in tail padding raises or returns the complete value;
+the complete input (also with bytes following it) returns the same value in every form - the library's construction shortcut, T(bytes)
+of EXACTLY the size of a lone char / char[N] member, included - and leaves a stream at the end of the encoding; no residue.  The same
+definitions also run through cuts_and_faults (model beside every cut, every read call faulted).
 """
 from __future__ import annotations
 
@@ -130,7 +142,10 @@ def run(env) -> Result:
                 "two records with pointers on one stream, failing dereferences (cut-off / unterminated / null targets, injected faults) and failing "
                 "parses between the two parses, second parse compared with the run without them. Named array lengths: count members / constants "
                 "called EOF, look-alikes, keywords, reader locals in every position, valid-by-construction inputs with the reference parser's data "
-                "mask, every cut and every faulted read call. distinct = "
+                "mask, every cut and every faulted read call. Call forms: structures / unions with one member (char, char[N], wchar[N], byte arrays, "
+                "null-terminated arrays, numbers, nested aggregates; two- and three-member controls) and bare types x every cut of a valid input x "
+                "{T(x), T.read(x), T.reads(x), cs.read(name, x), T[1](x)[0], W(x).inner} x {bytes, bytearray, memoryview, bytes subclass, BytesIO, "
+                "BufferedReader}: EOFError up to the last data byte, the complete value from the end of the encoding on. distinct = "
                 "(definition, config, input, cut or fault); non-trivial = cut strictly inside the encoded extent")
     eng = Engine(env, res, "C08")
     rnd = mkrng(env["seed"], "c08")
@@ -166,6 +181,9 @@ def run(env) -> Result:
     # dynamically sized unions under cuts and faulted reads (harness/v7_c08.py)
     from .. import v7_c08
     v7_c08.run(env, res, lambda w, d: eng.report(w, d, []), Faulty, count_reads, impl.dc())
+    # call forms x few-member aggregates and bare types (harness/v8_c08.py)
+    from .. import v8_c08
+    v8_c08.run(env, eng, res, mkrng(env["seed"], "c08-call-forms"), cuts_and_faults)
     eng.flush()
     return res
 
